@@ -433,6 +433,7 @@ static inline int size_class(uint64_t n)
 struct RunResult {
         std::string oracle; // empty = no violation; e.g. "C07.roundtrip"
         std::string detail;
+        std::string alt;    // a second property this violation also belongs to (e.g. a header split across calls: C07 and C19)
         uint64_t hash = 0, sig = 0, events = 0;
         uint32_t unusual = 0, calls = 0;
         bool violated() const { return !oracle.empty(); }
